@@ -172,6 +172,35 @@ UNIT = Unit(
                    C("inv", "state.coins.wf() && (spec_tip906(st0) ==> counts_ok(state.coins@)) && origin_ok(state.coins@.coins) && (!spec_tip906(st0) ==> state.coins@.counts == st0.coins@.counts)", "C20"),
                    C("frame", "pool_phase_frame(st0, *state) && state.fee_pool == st0.fee_pool && state.pools@ == pools1 && state.height == st0.height && state.network == st0.network", "C15"),
                ])]),
+        Fn(M, "process_withdrawals_for_single_pool", home="C15", implicit_props=("C09", "C15", "C16", "C01"), **mm_withdrawals_single(),
+           rewrites=[("R3", 0), ("ROOT", "iter", 0, "slice_iter", False), ("ANF", "fold", 0, 2, {}, "Q")],
+           closures=[Closure(0, "tx: &Transaction", "(r: u128)", requires=[C("has0", "tx.outputs@.len() > 0")], ensures=[C("v0", "r == tx.outputs@[0].value.0", "C15")]),
+                     Closure(1, "a: u128, b: u128", "(r: u128)", ensures=[C("sat0", "r as int == sat128(a + b)", "C15")])],
+           injects=[Inject("entry", "let ghost reqs0 = relevant_txx@; let ghost st0 = *state; let ghost c0 = state.coins@.coins; let ghost n0 = relevant_txx@.len() as int; let ghost vals = out_vals(relevant_txx@, 0);"),
+                    Inject(("after_let", "total_liqs"), """let ghost q = total_liqs as int;
+                        proof { let accs = choose|accs: Seq<u128>| #[trigger] fold_decided(__clQ1, __cQ0@, 0u128, accs) && total_liqs == accs[__cQ0@.len() as int];
+                            lemma_fold_sat(__cQ0@, vals, accs, n0); lemma_sat_sum_bounds(vals, n0); assert(vals[0] >= 1); assert(q == true_sum(vals, n0) && q >= 1); }"""),
+                    Inject(("after_stmt", "state.pools.insert(*pool, pool_state);"), """let ghost wl = total_left as int; let ghost wr = total_write as int; let ghost pools1 = state.pools@;
+                        proof { assert(pool_withdrawn(st0.pools@[*pool], pools1[*pool], q, wl, wr)); assert(pools1.dom() =~= st0.pools@.dom());
+                            assert(wds_settled(c0, c0, reqs0, 0, *pool, wl, wr, q, st0.height)); }"""),
+                    Inject(("before", "state.coins.insert_coin(\n            coinid_1"), "let ghost cmid = state.coins@.coins;"),
+                    Inject("end", """proof { lemma_shares_le(wl, vals, q, n0); lemma_shares_le(wr, vals, q, n0);
+                        assert(withdrawals_result(st0.pools@, c0, reqs0, *pool, st0.height, state.pools@, state.coins@.coins, wl, wr)); }""")],
+           loops=[Loop(0,
+               body_entry="let ghost cb = state.coins@.coins; let ghost i = __i as int; proof { assert(relevant_txx@[i] == reqs0[i]); lemma_sat_sum_bounds(vals, n0); assert(vals[i] == reqs0[i].outputs@[0].value.0); }",
+               body_exit="""proof { let a = cmid[cid(reqs0[i], 0)]; let b = state.coins@.coins[cid(reqs0[i], 1)];
+                   lemma_origin_insert(cb, reqs0[i], 0, a); lemma_origin_insert_extra(cmid, reqs0[i], 1, b);
+                   assert(!cmid.contains_key(cid(reqs0[i], 1))) by { assert(!wd_id(reqs0, i, cid(reqs0[i], 1))) by {
+                       if wd_id(reqs0, i, cid(reqs0[i], 1)) { let j = choose|j: int| 0 <= j < i && (cid(reqs0[i], 1) == cid(#[trigger] reqs0[j], 0) || cid(reqs0[i], 1) == cid(reqs0[j], 1)); assert(spec_txhash(reqs0[j]) != spec_txhash(reqs0[i])); } } }
+                   lemma_wds_settled_step(c0, cb, reqs0, i, *pool, wl, wr, q, st0.height, a, b); }""",
+               invariants=[
+                   C("len", "relevant_txx@.len() == n0 && __n == n0 && n0 == reqs0.len() && withdrawals_pre(reqs0, *pool) && vals == out_vals(reqs0, 0) && (forall|j: int| __i <= j < n0 ==> #[trigger] relevant_txx@[j] == reqs0[j])", "C15"),
+                   C("consts", "total_liqs as int == q && q == true_sum(vals, n0) && q >= 1 && total_left as int == wl && total_write as int == wr", "C15"),
+                   C("fresh", "forall|j: int| 0 <= j < n0 ==> !c0.contains_key(cid(#[trigger] reqs0[j], 1))", "C20"),
+                   C("settled", "wds_settled(c0, state.coins@.coins, reqs0, __i as int, *pool, wl, wr, q, st0.height)", "C15", "C01"),
+                   C("inv", "state.coins.wf() && (spec_tip906(st0) ==> counts_ok(state.coins@)) && origin_ok(state.coins@.coins) && (!spec_tip906(st0) ==> state.coins@.counts == st0.coins@.counts)", "C20"),
+                   C("frame", "pool_phase_frame(st0, *state) && state.fee_pool == st0.fee_pool && state.pools@ == pools1 && state.height == st0.height && state.network == st0.network", "C15"),
+               ])]),
         Fn(S, "tip_902", impl="UnsealedState", mode="assume", **st_tip(180000)),
         Fn(M, "create_builtins", home="C16", implicit_props=("C09", "C16"),
            uses="group_core_axioms, axiom_builtin_order, axiom_bytes_lt, axiom_denom_bytes_inj",
